@@ -365,8 +365,26 @@ def run(scn, want=(), fault=None, script=None, fit_faults=None, probe_limit=True
 
         def w_add(function_logger, gp, x_new, y_new, sd_new=None, options=None, _o=BB.add_and_update_gp):
             before = snap_gp(gp)
-            out = _o(function_logger, gp, x_new, y_new, sd_new, options)
-            tr.events.append(dict(type="gp_add", before=before, gp=snap_gp(out), x=np.array(x_new, dtype=float).ravel().copy(),
+            # did the posterior update with the new point fail (singular covariance)? then the documented fallback is to keep
+            # the previous posterior; observed on the instance, from outside
+            failed = {"n": 0}
+            inst_update = gp.update
+
+            def upd(*a, **k):
+                try:
+                    return inst_update(*a, **k)
+                except Exception:  # noqa: BLE001
+                    failed["n"] += 1
+                    raise
+            gp.update = upd
+            try:
+                out = _o(function_logger, gp, x_new, y_new, sd_new, options)
+            finally:
+                try:
+                    del gp.update
+                except AttributeError:
+                    pass
+            tr.events.append(dict(type="gp_add", before=before, gp=snap_gp(out), update_failed=failed["n"], x=np.array(x_new, dtype=float).ravel().copy(),
                                   y=y_new, sd=sd_new, log=snap_log(function_logger), phase=tr.phase,
                                   he=bool(options["specify_target_noise"])))
             return out
